@@ -126,8 +126,8 @@ func (r *Run) checkHashTable(P string) {
 			}
 		}
 		ret := p[len(p)-1].Instrs[len(p[len(p)-1].Instrs)-1].(*ssa.Return)
-		h := resolveOnPath(ret.Results[0], p)
-		e := resolveOnPath(ret.Results[1], p)
+		h := resolveOnPath(core.RetOp(ret, 0), p)
+		e := resolveOnPath(core.RetOp(ret, 1), p)
 		hs := "?"
 		if c, ok := h.(*ssa.Const); ok {
 			hs = core.ConstString(c)
